@@ -122,6 +122,9 @@ type VC struct {
 	revealed  map[string]bool
 	snaps     map[string]string
 	curState  *State
+	specRecv  Val
+	specArgs  []Val
+	panicPosts bool
 	tsubst    []map[*types.TypeParam]types.Type
 	oracle    *pathOracle
 	posCount  map[string]int
